@@ -292,6 +292,25 @@ func c14(c *core.Ctx) {
 		c.EndRule()
 	}
 
+	// ---------------------------------------------------------------- R7
+	if c.Rule("R7", "a custom error renderer takes effect: the option stores its own parameter unchanged, on every path, into the renderer field the unary handler reads; every function that accepts handler options applies each of them once, over the whole list, to the option object it hands to the handlers", 5) {
+		configPlumbing(c, "httpgrpc", func(st *types.Named, f *types.Var) bool {
+			sig, ok := f.Type().Underlying().(*types.Signature)
+			if !ok {
+				return false
+			}
+			for i := 0; i < sig.Params().Len(); i++ {
+				if core.TypeStr(sig.Params().At(i).Type()) == "net/http.ResponseWriter" {
+					return true
+				}
+			}
+			return false
+		})
+		optionFanOut(c, "httpgrpc")
+		optionApplySteps(c, "httpgrpc")
+		c.EndRule()
+	}
+
 	// ---------------------------------------------------------------- R6 (shared)
 	// the renderer that puts the documented HTTP status on the wire is never a nil func (C11/R7): a panic in the
 	// handler aborts the connection and the caller recovers no code at all
